@@ -19,6 +19,9 @@ KeyCounts == {1, 12}
 (* keyshape "long": two request URIs of 66 kB that differ in their last byte only (beyond what badger accepts as a key) *)
 Cases == {[scenario |-> s, lifetime |-> t, keys |-> n, keyshape |-> "short"] : s \in Scenarios, t \in Lifetimes, n \in KeyCounts}
          \cup {[scenario |-> "kill_quiet", lifetime |-> "long", keys |-> 2, keyshape |-> "long"]}
+         (* keyshape "big": 60 keys fetched at once, each answered with 256 kB that do not compress, the same
+            length for every key and other bytes for each (records written to the store in quick succession) *)
+         \cup {[scenario |-> "kill_quiet", lifetime |-> "long", keys |-> 60, keyshape |-> "big"]}
 Relevant(c) == (c.scenario \in {"store_is_file", "store_locked"} => c.lifetime = "long" /\ c.keys = 1)
                /\ (c.scenario = "graceful" => c.keys = 1)
 
